@@ -183,6 +183,10 @@ fn raw_case(seed: u64, i: u64) -> CaseOut {
     } else if raw.len() > 2 && rng.bool() {
         // a 0xD word first, so that it is certainly reached
         raw[1] = 0xD000 | rng.below(0x1000) as u16;
+    } else if raw.len() > 4 {
+        // ... or after R7 (the would-be stack pointer) has been moved out of user space
+        raw[1] = *rng.pick(&[0x5FE0u16, 0x9FFF, 0x1FFF, 0x1FE1]); // AND R7,R7,#0 / NOT R7,R7 / ADD R7,R7,#-1 / ADD R7,R7,#1
+        raw[2] = 0xD000 | rng.below(0x1000) as u16;
     }
     let input: Vec<u8> = (0..rng.below(3)).map(|_| 0x20 + rng.below(0x5F) as u8).collect();
     let (Some(off), Some(on)) = (run_raw(raw.clone(), false, input.clone()), run_raw(raw.clone(), true, input.clone())) else {
